@@ -133,6 +133,10 @@ def spec_from_ranges(m, items, ended, ln):
             return ("Err", "NotSorted")
         vals.append(v)
     if len(vals) < ln + 1:
+        if not ended:
+            # fewer than LEN+1 clean values were read and the source was not exhausted: whatever is
+            # returned now was decided without looking at values that determine the outcome
+            return ("Undetermined", "the input was neither read to the end nor far enough")
         return ("Err", "NotEnoughRanges")
     return ("Ok", vals)
 
@@ -151,7 +155,7 @@ def r_from_ranges(ctx, db, est, ln, consts=None):
         def thunk():
             r = call(m, fp, [src])
             items = drawn_items(m)
-            want = spec_from_ranges(m, items, None, ln)
+            want = spec_from_ranges(m, items, any(getattr(m, "iter_ended", {}).values()), ln)
             return r, want, items
         return thunk, {}
     paths, stats = explore(db, setup, Config(release=True, finite=False, consts=consts or {}, max_items=ln + 3), 60000)
@@ -194,6 +198,8 @@ def r_from_ranges(ctx, db, est, ln, consts=None):
 def short_out(o):
     if o[0] == "Ok":
         return "Ok(edges = %s)" % [show_val(v)[:12] for v in o[1]]
+    if o[0] == "Undetermined":
+        return "not determined by the values read (%s)" % o[1]
     return "Err(%s)" % o[1]
 
 
@@ -448,6 +454,110 @@ def r_iter_views(ctx, db, est, ln, consts=None):
                    "variance(i) is computed by exactly the same arithmetic as the i-th value of variances()" if not bad
                    else "%s is not computed by the same arithmetic as variances() (agreement only up to rounding): %s vs %s" % (
                        bad[0], show_val(dict((l, a) for l, a, b in pairs)[bad[0]])[:120], show_val(dict((l, b) for l, a, b in pairs)[bad[0]])[:120]))
+
+
+def r_iter_overrides(ctx, db, est, ln, consts=None):
+    """R-SIB for iterators: `next` is the definition of an iterator; every other Iterator method an
+    impl overrides (nth, size_hint, count, last) must agree with what the default method computes
+    from `next` — `skip`, `step_by`, `zip`, `collect` reach the items through those overrides."""
+    TR = "traits::Histogram"
+    ITER = "core::iter::traits::iterator::Iterator"
+    INTO = "core::iter::traits::collect::IntoIterator"
+    import summaries as S
+    getters = {"iter": db.find_impl_method(INTO, "&" + est.path, "into_iter")}
+    for name in ("normalized_bins", "widths", "centers", "variances"):
+        getters[name] = est.m(name, None) or est.m(name, TR) or ((TR + "::" + name) if (TR + "::" + name) in db.fns else None)
+    nref = {"fn": ITER + "::next", "trait": ITER, "name": "next"}
+    n_ob = 0
+
+    def nxt(m, cell):
+        o = S.iter_next(m, nref, [VRef(cell, (), True)], None, None)
+        return None if o.variant == 0 else o.fields[0]
+
+    def drain(m, cell, cap):
+        out = []
+        for _ in range(cap + 2):
+            x = nxt(m, cell)
+            if x is None:
+                return out
+            out.append(x)
+        return out + ["..."]
+
+    for gname, gp in sorted(getters.items()):
+        if gp is None:
+            continue
+        # the iterator type this getter returns and the methods its impl overrides
+        probe = Machine(db, [], Config(release=True, consts=consts or {}))
+        try:
+            a, ea, ba, rng, bn = hist_state(probe, est, "self")
+            itv = call(probe, gp, [VRef(a, (), False)])
+        except Exception:
+            continue
+        if not isinstance(itv, VStruct):
+            continue
+        over = sorted(it["name"] for i in db.impl_of.get((ITER, itv.path), []) for it in i["items"] if it["name"] != "next" and it.get("kind", "AssocFn") == "AssocFn")
+        for meth in over:
+            mp = db.find_impl_method(ITER, itv.path, meth)
+            if mp is None or mp not in db.fns:
+                continue
+            fsite = R.fn_site(db, mp)
+            key = "iterator-override:%s:%s:LEN=%d" % (gname, meth, ln)
+            if meth not in ("nth", "size_hint", "count", "last"):
+                ctx.ob("R-SIB", key, mp, fsite, False, "override of Iterator::%s is not compared with the default built from next()" % meth, inc=True)
+                n_ob += 1
+                continue
+            ks = list(range(0, ln + 2)) if meth == "nth" else [None]
+            pre = list(range(0, ln + 1)) if meth != "nth" else [0, 1]
+            for k in ks:
+                for consumed in pre:
+                    def setup(m, k=k, consumed=consumed):
+                        a, ea, ba, rng, bn = hist_state(m, est, "self")
+                        ref = VRef(a, (), False)
+
+                        def thunk():
+                            c1, c2 = Cell(call(m, gp, [ref])), Cell(call(m, gp, [ref]))
+                            for _ in range(consumed):
+                                nxt(m, c1)
+                                nxt(m, c2)
+                            if meth == "nth":
+                                got = call(m, mp, [VRef(c1, (), True), k])
+                                got = None if got.variant == 0 else got.fields[0]
+                                want = None
+                                for _ in range(k + 1):
+                                    want = nxt(m, c2)
+                                    if want is None:
+                                        break
+                                return ("nth", show_val(got), show_val(want), [show_val(x) for x in drain(m, c1, ln)], [show_val(x) for x in drain(m, c2, ln)])
+                            if meth == "count":
+                                got = call(m, mp, [deep(c1.v)])
+                                return ("count", show_val(simp(got)), str(len(drain(m, c2, ln))), [], [])
+                            if meth == "last":
+                                got = call(m, mp, [deep(c1.v)])
+                                got = None if got.variant == 0 else got.fields[0]
+                                rest = drain(m, c2, ln)
+                                return ("last", show_val(got), show_val(rest[-1] if rest else None), [], [])
+                            got = call(m, mp, [VRef(c1, (), False)])
+                            rest = len(drain(m, c2, ln))
+                            lo = simp(got.fields[0])
+                            hi = got.fields[1]
+                            hi_ok = (hi.variant == 0) or (isinstance(simp(hi.fields[0]), int) and simp(hi.fields[0]) >= rest)
+                            return ("size_hint", "lower %s, upper %s" % (show_val(lo), show_val(hi)), "lower <= %d <= upper" % rest,
+                                    [str(isinstance(lo, int) and lo <= rest and hi_ok)], ["True"])
+                        return thunk, {}
+                    paths, stats = explore(db, setup, Config(release=True, consts=consts or {}), 64)
+                    ctx.count_run(Run(mp, paths, stats, key))
+                    for p in paths:
+                        n_ob += 1
+                        lab = "%s(%s) after %d item(s)" % (meth, "" if k is None else k, consumed)
+                        if p.status != "return":
+                            ctx.ob("R-SIB", key, mp, fsite, False, "%s: %s %s" % (lab, p.status, p.info.get("kind") or p.info.get("why")), inc=p.status == "inconclusive")
+                            continue
+                        kind, got, want, r1, r2 = p.ret
+                        ok = got == want and r1 == r2 if kind != "size_hint" else r1 == r2
+                        ctx.ob("R-SIB", key, mp, fsite, ok,
+                               "%s on %s(): %s; the default built from next() gives %s%s" % (
+                                   lab, gname, got, want, "" if r1 == r2 else "; the items that follow differ: %s vs %s" % (r1[:2], r2[:2])))
+    return n_ob
 
 
 def r_bin_variance_range(ctx, db, est, ln, consts=None):
